@@ -331,6 +331,11 @@ def cases(tier):
                     continue
                 if edit == 'options-middle-solve' and (be != 'cvxpy' or mname not in ('gd', 'lmi')):
                     continue
+                if edit == 'new-sample' and mname == 'partition':
+                    # block leaf points are created at solve time: a sample added after a first solve gets later Gram
+                    # indices than in a freshly built model - an equivalent SDP up to a permutation of the leaf points,
+                    # which this check's row-by-row comparison does not factor out (stated bound, not a defect)
+                    continue
                 if edit == 'change-parameter' and mname not in ('gd', 'lmi'):
                     continue
                 if edit == 'heuristic-then-primal' and mname not in ('gd', 'lmi'):
